@@ -111,3 +111,12 @@ func init() {
 	p.Rules = append(p.Rules, "R-CONST")
 	Properties["C06"] = p
 }
+
+func init() {
+	Properties["C02"] = PropertySpec{
+		Rules: []string{"R-FMA", "R-STAGES", "R-SOS", "R-CONST", "R-SELFCMP"},
+		Explanation: "Exactness of the orientation and distance predicates, reduced to the machinery the exactness argument relies on: unfused products, error bounds not weakened, floating-point stages trusted only strictly beyond their bound, " +
+			"stages ordered, argument swaps paired with sign flips, sign products taken only for equal signs, and the symbolic perturbation testing exactly the coefficient sequence of one fixed perturbation and never returning zero.",
+		NotCovered: "that the error bounds are sufficient (their derivations are trusted), results on concrete tuples, big.Float arithmetic itself.",
+	}
+}
